@@ -16,7 +16,7 @@ import (
 func init() { Registry["C17"] = c17 }
 
 func c17(p *core.Prog, r *core.Report) {
-	r.Explain = "Decides: (R1) the complete decision table of RetryOn.CanRetry over {policy} x {error code class}, extracted from its CFG (not executed), equals the table written from the property statement; getErrCode maps net.Error to the network code; (R2) every invocation of the retriable function in RunWithRetry lies in one counted loop i=0; i<MaxAttempts; i++ with exactly one invocation and one Attempt increment per iteration, and a zero MaxAttempts is replaced by the default 5; (R3) the loop's exits: nil on success, the error itself when the policy refuses, the last error at exhaustion, and the back edge only under CanRetry(err); (R4) Peer.BeginCall records the peer in the request state before validation and SubChannel.BeginCall passes the previously selected peers to selection. (R5) The caller's RetryOptions reach the attempt loop unchanged (builder setters, Build, accessor, loop). The library's retry closures start each attempt with that attempt's RequestState in the call options. Retry closures use the attempt's context."
+	r.Explain = "Decides: (R1) the complete decision table of RetryOn.CanRetry over {policy} x {error code class}, extracted from its CFG (not executed), equals the table written from the property statement; getErrCode maps net.Error to the network code; (R2) every invocation of the retriable function in RunWithRetry lies in one counted loop i=0; i<MaxAttempts; i++ with exactly one invocation and one Attempt increment per iteration, and a zero MaxAttempts is replaced by the default 5; (R3) the loop's exits: nil on success, the error itself when the policy refuses, the last error at exhaustion, and the back edge only under CanRetry(err); (R4) Peer.BeginCall records the peer in the request state before validation and SubChannel.BeginCall passes the previously selected peers to selection. (R5) The caller's RetryOptions reach the attempt loop unchanged (builder setters, Build, accessor, loop). The library's retry closures start each attempt with that attempt's RequestState in the call options. Retry closures use the attempt's context. (R6) a context's raw error never reaches the retry policy (shared with C20-R3). The loop rules follow an attempt delegated to a helper that invokes the function exactly once and a CanRetry decision wrapped in a helper."
 	r.NotDecided = "per-attempt timeout values; that peer selection actually avoids the recorded peers (C15); behaviour of the caller-supplied function."
 	r.Rule("C17-R1", "E1 decision table", 60, "CanRetry decision table equals the specified policy table")
 	r.Rule("C17-R2", "E6 loop shape", 5, "attempt budget: one counted loop, one call and one Attempt++ per iteration, default 5")
